@@ -32,7 +32,7 @@ def archs(tier):
 
 
 def bound(tier):
-    return dict(architectures=[[k, a] for k, a in archs(tier)], patterns=3, deviations="1 (values 0,+-7) on n<=2",
+    return dict(architectures=[[k, a] for k, a in archs(tier)], patterns=3 if tier == "quick" else 5, deviations="1 (values 0,+-7) on n<=%d" % (2 if tier == "quick" else 3),
                 regions="all 2^n subsets, as list / numpy int array / long tensor / int (singletons)",
                 pairs="all ordered pairs of basis states")
 
@@ -40,8 +40,8 @@ def bound(tier):
 def plan(tier, seed):
     items = []
     for kind, arch in archs(tier):
-        for q in range(3):
-            items.append(dict(kind=kind, arch=arch, q=q, dev=1 if arch[0] <= 2 else 0))
+        for q in range(3 if tier == "quick" else 5):
+            items.append(dict(kind=kind, arch=arch, q=q, dev=1 if arch[0] <= (2 if tier == "quick" else 3) else 0))
     return items
 
 
